@@ -30,6 +30,7 @@ def cfgOfArgs (kv : List (String × String)) : Cfg :=
     fltCondDirect := boolOf (arg kv "fltCondDirect"),
     keyChecked := boolOf (arg kv "keyChecked"),
     recreateKeepsPointer := boolOf (arg kv "recreateKeepsPointer"),
+    patchAsksFirst := boolOf (arg kv "patchAsksFirst"),
     saveReleasesImmediate := boolOf (arg kv "saveReleasesImmediate"),
     encoding := if arg kv "encoding" == "typeTagged" then .typeTagged else .gobOmitZero }
 
@@ -226,6 +227,7 @@ def tagId : Tag → String
   | .stickyFlags => "sticky-changed-flags"
   | .nanCond => "nan-condition-passes"
   | .unstorableKey => "unstorable-key-acknowledged"
+  | .patchGhost => "patch-summons-missing-swamp"
   | .metaNoCompare => "meta-always-changed"
   | .tsSubSecond => "preepoch-subsecond-accepted"
   | .voidNoClear => "set-void-keeps-value"
@@ -247,7 +249,7 @@ def tagPrio : Tag → Nat
   | .u32delDeadlock => 0 | .u32delNonSlice => 1 | .hiddenSlice => 2 | .voidNoClear => 3 | .sliceMerge => 4
   | .incFailTrace => 5 | .inflightReuse => 6 | .tsSubSecond => 7 | .metaNoCompare => 8 | .setErrDup => 9
   | .arekPrecondition => 10 | .countPrecondition => 11 | .zeroLikeDropped => 12 | .emptyLive => 13 | .resurrected => 0
-  | .stickyFlags => 14 | .nanCond => 4 | .unstorableKey => 0
+  | .stickyFlags => 14 | .nanCond => 4 | .unstorableKey => 0 | .patchGhost => 0
 
 def pickTag (tags : List Tag) : Option Tag :=
   tags.foldl (fun best t => match best with
@@ -326,10 +328,12 @@ def stepReq (d : DState) (f : List String) : DState × String :=
     let after := Model.abs o.s
     let devAny : Bool := !d.s.dead && (decide (sp.2 ≠ o.r) || decide (sp.1 ≠ after))
     let dev : Bool := devAny && d.pol == .c06
-    let tag := pickTag o.tags <|> d.lastTag
+    -- (an empty swamp that PatchTreasures left behind explains what the data requests then answer about it)
+    let tag := if d.lastTag == some Tag.patchGhost && (Model.abs d.s).isEmpty then d.lastTag else pickTag o.tags <|> d.lastTag
     -- (the one mechanism known to move an expiry past the index stays the explanation for the rest of the case)
     let lastTag := if d.pol == .c30 && (d.lastTag == some Tag.incFailTrace || o.tags.contains Tag.incFailTrace)
                    then some Tag.incFailTrace
+                   else if d.lastTag == some Tag.patchGhost && (Model.abs o.s).isEmpty && Model.exists_ o.s then d.lastTag
                    else match pickTag o.tags with | some t => some t | none => d.lastTag
     -- a deviation from the data-request Spec that this domain does not report is still marked
     -- (`#D:`), so that the independent reference knows the line is accounted for elsewhere (C06)
